@@ -6,6 +6,7 @@ import CnvVerif.Driver.SegFilter
 import CnvVerif.Driver.SegFilterExt
 import CnvVerif.Driver.Tile
 import CnvVerif.Driver.Center
+import CnvVerif.Driver.SexExt
 import CnvVerif.Driver.Fix
 import CnvVerif.Driver.Access
 import CnvVerif.Driver.Genes
@@ -27,7 +28,7 @@ import CnvVerif.Driver.StatsGlue
 open Lean CnvVerif.Drv
 
 def handlers : List (String → Json → Option Json → R (Option Json)) :=
-  [handleInterval, handleCall, handleCallCmd, handleSegFilter, handleSegFilterExt, handleTile, handleCenter, handleFix, handleAccess, Genes.handleGenes, handleFormats, handleFormatsExt, handleExport, handleExportExt, Reference.handleReference, handleCoverage, handleCoverageExt, handleEffects, handleBins, handleVcf, handleVcfExt, handleDescriptives, Haar.handleHaar, handleStats, handleStatsGlue]
+  [handleInterval, handleCall, handleCallCmd, handleSegFilter, handleSegFilterExt, handleTile, handleCenter, handleSexExt, handleFix, handleAccess, Genes.handleGenes, handleFormats, handleFormatsExt, handleExport, handleExportExt, Reference.handleReference, handleCoverage, handleCoverageExt, handleEffects, handleBins, handleVcf, handleVcfExt, handleDescriptives, Haar.handleHaar, handleStats, handleStatsGlue]
 
 def dispatch (op : String) (inp : Json) (impl : Option Json) : R Json := do
   for h in handlers do
